@@ -16,6 +16,7 @@ import (
 	"verifharness/plan"
 	"verifharness/sim"
 	"verifharness/tape"
+	"verifharness/wasmb"
 )
 
 type c12 struct{}
@@ -55,10 +56,13 @@ type rtDesc struct {
 	Listen     string `json:"listeners"` // none | all | subset | set | set+alias
 	ListenSet  []int  `json:"listener_set,omitempty"`
 	EnsureTerm bool   `json:"close_on_context_done"`
+	// MemLimit is WithMemoryLimitPages: a SEMANTIC setting, identical for every runtime of a run
+	// (baseline included); 0 = default
+	MemLimit uint32 `json:"memory_limit_pages,omitempty"`
 }
 
 func (d rtDesc) String() string {
-	return fmt.Sprintf("{cache=%s capFromMax=%v alloc=%s noDebug=%v custom=%v listen=%s term=%v}", d.Cache, d.CapFromMax, d.Alloc, d.NoDebug, d.Custom, d.Listen, d.EnsureTerm)
+	return fmt.Sprintf("{cache=%s capFromMax=%v alloc=%s noDebug=%v custom=%v listen=%s term=%v limit=%d}", d.Cache, d.CapFromMax, d.Alloc, d.NoDebug, d.Custom, d.Listen, d.EnsureTerm, d.MemLimit)
 }
 
 type sliceMem struct {
@@ -107,6 +111,38 @@ func (l nopListener) Before(context.Context, api.Module, api.FunctionDefinition,
 func (l nopListener) After(context.Context, api.Module, api.FunctionDefinition, []uint64) { *l.n++ }
 func (l nopListener) Abort(context.Context, api.Module, api.FunctionDefinition, error)    { *l.n++ }
 
+// tailGuest: loops written as tail calls (direct, indirect, mutual): they run in constant stack, so
+// any iteration count must give the same result under every configuration.
+func tailGuest() []byte {
+	m := &wasmb.Module{}
+	i32 := wasmb.I32
+	two := []wasmb.ValType{i32, i32}
+	one := []wasmb.ValType{i32}
+	ty := m.AddType(two, one)
+	body := func(next func(c *wasmb.Code)) []byte {
+		c := &wasmb.Code{}
+		c.LocalGet(0).I32Eqz().If(wasmb.BlockVoid).LocalGet(1).Return().End()
+		c.LocalGet(0).I32Const(1).I32Sub().LocalGet(1).LocalGet(0).I32Add()
+		next(c)
+		return c.B
+	}
+	// function indexes: 0 tdirect, 1 tindirect, 2 ta, 3 tb
+	m.AddFunc(two, one, nil, body(func(c *wasmb.Code) { c.ReturnCall(0) }), "tdirect")
+	m.AddFunc(two, one, nil, body(func(c *wasmb.Code) { c.I32Const(1).ReturnCallIndirect(ty, 0) }), "tindirect")
+	m.AddFunc(two, one, nil, body(func(c *wasmb.Code) { c.ReturnCall(3) }), "tmutual")
+	m.AddFunc(two, one, nil, body(func(c *wasmb.Code) { c.I32Const(2).ReturnCallIndirect(ty, 0) }), "tb")
+	m.Tables = []wasmb.Table{{Elem: wasmb.FuncRef, Lim: wasmb.Limits{Min: 4}}}
+	m.Elems = []wasmb.Elem{{Mode: 0, Offset: wasmb.ConstI32(0), Funcs: []uint32{0, 1, 2, 3}}}
+	return m.Encode()
+}
+
+var tailFns = []string{"tdirect", "tindirect", "tmutual"}
+
+type tailStep struct {
+	fn string
+	n  int32
+}
+
 type callStep struct {
 	fn   int
 	arg  int32
@@ -114,7 +150,7 @@ type callStep struct {
 }
 
 // runOne executes the script under one runtime description and returns the canonical trace.
-func runOne(engine string, d rtDesc, shared wazero.CompilationCache, dir string, bin []byte, p *plan.Plan, script []callStep) (trace []string, err error) {
+func runOne(engine string, d rtDesc, shared wazero.CompilationCache, dir string, bin []byte, p *plan.Plan, script []callStep, tails []tailStep) (trace []string, err error) {
 	ctx := context.Background()
 	var cfg wazero.RuntimeConfig
 	if engine == "interpreter" {
@@ -136,7 +172,10 @@ func runOne(engine string, d rtDesc, shared wazero.CompilationCache, dir string,
 		}
 		cfg = cfg.WithCompilationCache(own)
 	}
-	cfg = cfg.WithMemoryCapacityFromMax(d.CapFromMax).WithDebugInfoEnabled(!d.NoDebug).WithCustomSections(d.Custom).WithCloseOnContextDone(d.EnsureTerm)
+	cfg = cfg.WithCoreFeatures(api.CoreFeaturesV2 | experimental.CoreFeaturesTailCall).WithMemoryCapacityFromMax(d.CapFromMax).WithDebugInfoEnabled(!d.NoDebug).WithCustomSections(d.Custom).WithCloseOnContextDone(d.EnsureTerm)
+	if d.MemLimit != 0 {
+		cfg = cfg.WithMemoryLimitPages(d.MemLimit)
+	}
 	cctx := ctx
 	lcount := 0
 	switch d.Listen {
@@ -216,6 +255,26 @@ func runOne(engine string, d rtDesc, shared wazero.CompilationCache, dir string,
 		}
 		trace = append(trace, line)
 	}
+	if len(tails) > 0 {
+		tcm, err := rt.CompileModule(cctx, tailGuest())
+		if err != nil {
+			return nil, fmt.Errorf("compile tail guest: %w", err)
+		}
+		tmod, err := rt.InstantiateModule(cctx, tcm, wazero.NewModuleConfig().WithName("tails"))
+		if err != nil {
+			return nil, fmt.Errorf("instantiate tail guest: %w", err)
+		}
+		for _, ts := range tails {
+			res, err := tmod.ExportedFunction(ts.fn).Call(cctx, uint64(uint32(ts.n)), 0)
+			line := fmt.Sprintf("tails.%s(%d) -> ", ts.fn, ts.n)
+			if err != nil {
+				line += "error: " + strings.SplitN(err.Error(), "\n", 2)[0]
+			} else {
+				line += fmt.Sprint(int32(uint32(res[0])))
+			}
+			trace = append(trace, line)
+		}
+	}
 	mem := mod.Memory()
 	st := fmt.Sprintf("final pages=%d closed=%v cells=", mem.Size()/65536, mod.IsClosed())
 	for c := 0; c < plan.NCells; c++ {
@@ -248,9 +307,30 @@ func (c12) Run(t *tape.Tape, cfg sim.Config) (res sim.Result) {
 	p := plan.Generate(t, o)
 	p.Name = "pn"
 	bin := p.Encode()
-	if t.Chance(1, 2) {
-		// add a custom section (kept or dropped by WithCustomSections)
-		bin = append(bin, 0, 8, 4, 'm', 'e', 't', 'a', 1, 2, 3)
+	// custom sections (kept or dropped by WithCustomSections / WithDebugInfoEnabled): with a payload or
+	// with an empty one, after the last section or before the first
+	full := []byte{0, 8, 4, 'm', 'e', 't', 'a', 1, 2, 3}
+	empty := []byte{0, 5, 4, 'v', 'o', 'i', 'd'}
+	switch t.Choose(6) {
+	case 1:
+		bin = append(bin, full...)
+	case 2:
+		bin = append(bin, empty...)
+		res.Stat("probe.empty_custom_section_last", 1)
+	case 3:
+		bin = append(append(append([]byte{}, bin[:8]...), empty...), bin[8:]...)
+	case 4:
+		bin = append(append(append(append([]byte{}, bin[:8]...), full...), bin[8:]...), empty...)
+		res.Stat("probe.empty_custom_section_last", 1)
+	case 5:
+		bin = append(append(bin, empty...), full...)
+	}
+	// the runtime's page limit (the same for every runtime of the run): the default, or below / at /
+	// above the maximum the module declares
+	var memLimit uint32
+	if t.Chance(1, 3) {
+		memLimit = tape.Pick(t, []uint32{2, 3, plan.MaxPages, 9})
+		res.Stat("probe.memory_limit_pages_set", 1)
 	}
 	var script []callStep
 	for n := t.Range(3, 12); n > 0; n-- {
@@ -268,9 +348,17 @@ func (c12) Run(t *tape.Tape, cfg sim.Config) (res sim.Result) {
 			}
 		}
 	}
-	base, err := runOne(cfg.Engine, rtDesc{Cache: "none", Alloc: "default", Listen: "none"}, nil, "", bin, p, script)
-	if err != nil {
-		panic(fmt.Sprintf("harness: baseline failed: %v", err))
+	var tails []tailStep
+	if t.Chance(1, 3) {
+		for k := t.Range(1, 2); k > 0; k-- {
+			tails = append(tails, tailStep{tape.Pick(t, tailFns), tape.Pick(t, []int32{0, 1, 50, 3000, 150000})})
+		}
+		res.Stat("probe.tail_call_loops", int64(len(tails)))
+	}
+	base, err := runOne(cfg.Engine, rtDesc{Cache: "none", Alloc: "default", Listen: "none", MemLimit: memLimit}, nil, "", bin, p, script, tails)
+	baseErr := err
+	if baseErr != nil {
+		res.Stat("probe.baseline_rejects_module", 1)
 	}
 	dir, err := os.MkdirTemp(os.Getenv("VERIF_SCRATCH"), "c12-")
 	if err != nil {
@@ -301,6 +389,7 @@ func (c12) Run(t *tape.Tape, cfg sim.Config) (res sim.Result) {
 			Custom:     t.Chance(1, 2),
 			Listen:     tape.Pick(t, []string{"none", "all", "subset", "set", "set+alias"}),
 			EnsureTerm: t.Chance(1, 3),
+			MemLimit:   memLimit,
 		}
 		if focus {
 			// every runtime on a shared cache object, listener selections by function index only
@@ -331,10 +420,10 @@ func (c12) Run(t *tape.Tape, cfg sim.Config) (res sim.Result) {
 		}
 	}
 	for i, d := range descs {
-		tr, err := runOne(cfg.Engine, d, shared, dir, bin, p, script)
+		tr, err := runOne(cfg.Engine, d, shared, dir, bin, p, script, tails)
 		res.Logf("runtime %d %s", i, d)
-		if err != nil {
-			res.Fail("config-changes-behaviour", "runtime %d %s (after %v): %v; the baseline configuration runs the same module fine", i, d, descs[:i], err)
+		if (err != nil) != (baseErr != nil) {
+			res.Fail("config-changes-behaviour", "runtime %d %s (after %v): error %v; the baseline configuration (no cache, default allocator, no listeners, debug info on, custom sections dropped) gives error %v for the same module", i, d, descs[:i], err, baseErr)
 			return
 		}
 		for j := range base {
